@@ -90,6 +90,8 @@ type pathCtx struct {
 	schedFill     func()
 	opaqueItoa    bool
 	urlStruct     bool
+	iriAtoms      []string // atoms that stand for absolute IRIs (vfIRI inputs, IRI-valued UF results)
+	nonURLLits    []string // literal atoms whose text is not an absolute URL
 	atomStrSeen   map[string]bool
 	atomStrTerms  []string
 	structDone    map[string]bool
@@ -189,6 +191,12 @@ func (p *pathCtx) litAtom(s string) string {
 	if u, err := url.Parse(s); err == nil && u.Scheme != "" && u.Host != "" {
 		h := p.litAtom(u.Host)
 		p.sol.send("(assert (= (iri_host " + name + ") " + h + "))\n")
+	} else if !strings.Contains(s, ".") {
+		// a literal that is no absolute URL (and no host name) is never the value of an IRI atom
+		p.nonURLLits = append(p.nonURLLits, name)
+		for _, a := range p.iriAtoms {
+			p.sol.send("(assert (distinct " + a + " " + name + "))\n")
+		}
 	}
 	return name
 }
@@ -434,11 +442,20 @@ func (p *pathCtx) fresh(tag, kind string) *sym {
 	case "iri":
 		p.declare(name, "Atom")
 		s = &sym{s: sAtom, e: name, pc: p}
+		p.noteIRIAtom(name)
 	default:
 		panic(engineErr("fresh: kind " + kind))
 	}
 	p.inputs = append(p.inputs, inputVar{Tag: full, Name: name, Kind: kind})
 	return s
+}
+
+// noteIRIAtom: an atom that stands for an absolute IRI differs from every literal that is no URL.
+func (p *pathCtx) noteIRIAtom(t string) {
+	p.iriAtoms = append(p.iriAtoms, t)
+	for _, l := range p.nonURLLits {
+		p.sol.send("(assert (distinct " + t + " " + l + "))\n")
+	}
 }
 
 func (p *pathCtx) tapeKey(tag string) string {
